@@ -1,7 +1,7 @@
-(* PropC08.v — C08: damaged WAL bytes never surface as records that were not appended. Proved: (a) for ANY directory content, whatever open returns has strictly increasing positions per queue (representation invariant); (b) whatever decodes as an entry is exactly the serialization of that entry (nothing invented by the codec); (c) CRC-detected damage of any set of frames delivers a subsequence of the written entries. The general statement is false without the NoEmbedded hypothesis (known finding F4).
+(* PropC08.v — C08: damaged WAL bytes never surface as records that were not appended. Proved: (a) for ANY directory content, whatever open returns has strictly increasing positions per queue (representation invariant); (b) whatever decodes as an entry is exactly the serialization of that entry (nothing invented by the codec); (c) CRC-detected damage of any set of frames delivers a subsequence of the written entries. (d) ARBITRARY damage inside one block, frame headers (length, type byte) included: under the hypothesis NoEmbeddedPath (the only CRC-valid frames on the reader's path through the damaged block are genuine, untouched frames: what a CRC promises up to collisions) the delivered entries are a sub-list of the written ones. The general statement is false without that hypothesis (known finding F4: NoEmbedded_necessary).
    Statements only; each theorem is closed by `exact <lemma>`; proofs live in the imported files. *)
 From Coq Require Import Lia NArith List.
-From MRL Require Import Bytes Params Names Frame Record Mem Spec Rolling Log Driver SpecRefine RecordProofs StreamProofs DamageProofs OpenReplay DamageFile.
+From MRL Require Import Bytes Params Names Frame Record Mem Spec Rolling Log Driver SpecRefine RecordProofs StreamProofs DamageProofs OpenReplay DamageFile HeaderDamageEv HeaderDamage HeaderDamageEx.
 
 (* any directory content: the returned queues satisfy the invariant (positions strictly increasing, payload offsets consistent) *)
 Theorem C08_positions_increasing_any_directory :
@@ -103,4 +103,80 @@ Theorem C08_open_damaged_replays_only_written :
     end).
 Proof. exact open_damaged. Qed.
 Print Assumptions C08_open_damaged_replays_only_written.
+
+(* arbitrary bytes in one block (headers included): the reader terminates and delivers a sub-list of the written entries, provided only genuine frames verify on its path through that block *)
+Theorem C08_header_damage_sublist :
+    forall P : params,
+    7 < BS P ->
+    BS P <= 65542 ->
+    (forall (t : byte) (p : bytes), crcf P t p < 2 ^ 32) ->
+    forall (es : list bytes) (t D : bytes) (b : N),
+    encs_rel P 0 es t ->
+    damaged_in_block P D t b ->
+    NoEmbeddedPath P D b t ->
+    let out := mem_read_stream P D in ~ In MrFuel out /\ sublist (delivered out) es.
+Proof. exact header_damage_sublist. Qed.
+Print Assumptions C08_header_damage_sublist.
+
+(* and the damage is local: entries before the block are all delivered, entries after it are all delivered unless the reader met a zero header inside the block (then it takes it for the end of the log) *)
+Theorem C08_header_damage_local :
+    forall P : params,
+    7 < BS P ->
+    BS P <= 65542 ->
+    (forall (t : byte) (p : bytes), crcf P t p < 2 ^ 32) ->
+    forall (es1 esb es3 : list bytes) (t1 tb t3 D : bytes) (b : N),
+    encs_rel P 0 es1 t1 ->
+    encs_rel P (lenN t1) esb tb ->
+    encs_rel P (lenN t1 + lenN tb) es3 t3 ->
+    damaged_in_block P D (t1 ++ tb ++ t3) b ->
+    lenN t1 <= b * BS P ->
+    es3 = [] \/ (b + 1) * BS P <= ResyncProofs.first_frame_pos P (lenN t1 + lenN tb) ->
+    NoEmbeddedPath P D b (t1 ++ tb ++ t3) ->
+    let out := mem_read_stream P D in
+    ~ In MrFuel out /\
+    sublist (delivered out) (es1 ++ esb ++ es3) /\
+    (exists mid tail : list bytes,
+    delivered out = es1 ++ mid ++ tail /\
+    sublist mid esb /\ (tail = es3 \/ tail = [] /\ stopped_in P D b)).
+Proof. exact header_damage_local. Qed.
+Print Assumptions C08_header_damage_local.
+
+(* if it did not, everything outside the block is delivered *)
+Theorem C08_header_damage_resync :
+    forall P : params,
+    7 < BS P ->
+    BS P <= 65542 ->
+    (forall (t : byte) (p : bytes), crcf P t p < 2 ^ 32) ->
+    forall (es1 esb es3 : list bytes) (t1 tb t3 D : bytes) (b : N),
+    encs_rel P 0 es1 t1 ->
+    encs_rel P (lenN t1) esb tb ->
+    encs_rel P (lenN t1 + lenN tb) es3 t3 ->
+    damaged_in_block P D (t1 ++ tb ++ t3) b ->
+    lenN t1 <= b * BS P ->
+    es3 = [] \/ (b + 1) * BS P <= ResyncProofs.first_frame_pos P (lenN t1 + lenN tb) ->
+    NoEmbeddedPath P D b (t1 ++ tb ++ t3) ->
+    ~ stopped_in P D b ->
+    exists mid : list bytes, delivered (mem_read_stream P D) = es1 ++ mid ++ es3 /\ sublist mid esb.
+Proof. exact header_damage_resync. Qed.
+Print Assumptions C08_header_damage_resync.
+
+(* the hypothesis is necessary: a payload embedding a CRC-valid frame image + one overwritten length byte makes the reader deliver an entry that was never written (finding F4, at stream level, real CRC-32) *)
+Theorem C08_NoEmbedded_necessary :
+    encs_rel DamageAtomic.Example.Pc 0 A.es A.t /\
+    damaged_in_block DamageAtomic.Example.Pc A.D A.t 0 /\
+    ~ sublist (delivered (mem_read_stream DamageAtomic.Example.Pc A.D)) A.es /\
+    ~ NoEmbeddedPath DamageAtomic.Example.Pc A.D 0 A.t.
+Proof. exact A.NoEmbedded_necessary. Qed.
+Print Assumptions C08_NoEmbedded_necessary.
+
+(* and locality cannot be improved: one damaged length byte can make the reader land in a zero payload and end the log there, losing intact entries of later blocks *)
+Theorem C08_header_damage_later_entries_can_be_lost :
+    encs_rel DamageAtomic.Example.Pc 0 C.es C.t /\
+    damaged_in_block DamageAtomic.Example.Pc C.D C.t 0 /\
+    NoEmbedded DamageAtomic.Example.Pc C.D 0 C.t /\
+    sliceN 32 64 C.D = sliceN 32 64 C.S /\
+    sliceN 32 44 C.S = frame_bytes DamageAtomic.Example.Pc Full e3 /\
+    ~ In e3 (delivered (mem_read_stream DamageAtomic.Example.Pc C.D)).
+Proof. exact C.later_entries_can_be_lost. Qed.
+Print Assumptions C08_header_damage_later_entries_can_be_lost.
 
